@@ -134,7 +134,7 @@ class HoareTransformer(Transformer):
         return com.Cond(b, c1, c2)
 
     def while_cmd(self, b, c):
-        return com.While(b, true, c)
+        return com.While(b, expr.true, c)
 
     def while_cmd_inv(self, b, inv, c):
         return com.While(b, inv, c)
